@@ -888,6 +888,7 @@ func genCheckpointScript(rt *rapid.T) *Script {
 	n := rapid.IntRange(6, 18).Draw(rt, "cp.steps")
 	lane := 0
 	feedOn, parkedW := false, ""
+	feedParked := false           // the running feed's start is held between backfill and registration
 	gatedGen := map[string]bool{} // "" = every collection of the feed, else one collection index
 	anyGated := func() bool {
 		for _, g := range gatedGen {
@@ -906,6 +907,9 @@ func genCheckpointScript(rt *rapid.T) *Script {
 	write := func(park bool) {
 		op := genLaneOp(rt, lane, keys, 1)
 		op.C = pick(rt, fcolls, "cp.wcoll")
+		if sc.Config.Handles > 1 {
+			op.H = rapid.IntRange(0, sc.Config.Handles-1).Draw(rt, "cp.wh") // the feed is started through handle 0
+		}
 		if op.K == "SetWithMeta" {
 			op.K, op.MetaCas = "Set", "" // the property is about the regular write API
 		}
@@ -933,7 +937,15 @@ func genCheckpointScript(rt *rapid.T) *Script {
 		} else {
 			choices = append(choices, "resumeW", "resumeW")
 		}
+		if feedParked {
+			choices = append(choices, "resumeFeed", "resumeFeed")
+		}
 		switch pick(rt, choices, "cp.step") {
+		case "resumeFeed":
+			// the held feed start goes on: what was written meanwhile (through any handle) must reach
+			// the feed live, and the feed keeps running
+			sc.Steps = append(sc.Steps, SStep{Do: "resumeFeed"})
+			feedParked = false
 		case "write", "writePark":
 			write(true)
 		case "resumeW":
@@ -947,12 +959,13 @@ func genCheckpointScript(rt *rapid.T) *Script {
 			arm := []string{}
 			if chance(rt, 30, "cp.parkfeed") {
 				arm = []string{"feed.afterBackfill"}
+				feedParked = true
 			}
 			sc.Steps = append(sc.Steps, SStep{Do: "startFeed", Lane: fmt.Sprintf("F%d", i), Arm: arm})
 			feedOn = true
 		case "stopFeed":
 			sc.Steps = append(sc.Steps, SStep{Do: "stopFeed"})
-			feedOn = false
+			feedOn, feedParked = false, false
 		case "gateCb":
 			tg := gateTarget()
 			if tg == "" && anyGated() {
@@ -1262,6 +1275,16 @@ func runCheckpointScript(sc *Script) (devs []Deviation, sr *scriptRun, err error
 			})
 			sr.order = append(sr.order, lane)
 			sr.log = append(sr.log, fmt.Sprintf("plainStop %s -> %s", st.Lane, status))
+		case "resumeFeed":
+			for _, name := range sr.order {
+				if strings.HasPrefix(name, "F") && sr.s.Parked(name) != "" {
+					st := sr.s.Resume(name, []string{"feed.afterBackfill"}) // (a multi-collection start parks once per collection)
+					for i := 0; i < 4 && strings.HasPrefix(st, "parked"); i++ {
+						st = sr.s.Resume(name, []string{"feed.afterBackfill"})
+					}
+					sr.log = append(sr.log, "resumeFeed "+name+" -> "+st)
+				}
+			}
 		case "pause":
 			time.Sleep(60 * time.Millisecond) // lets a released part of the feed end before the next one is released
 		default:
